@@ -277,7 +277,7 @@ def pkt_ipv4_udp_raw(rnd):
     return ipv4(rnd, u, 17, src, dst), dict(raw=payload, dport=dport, **extra)
 
 
-def sctp_large(rnd, kind=None):
+def sctp_large(rnd, kind=None, jumbo_len=None):
     """well-formed but large SCTP packets: chunks made of more than a thousand parameters, jumbo DATA chunks, long SACKs"""
     kind = kind or rnd.choice(['params', 'data', 'sack'])
     if kind == 'params':
@@ -300,7 +300,7 @@ def sctp_large(rnd, kind=None):
     if kind in ('data', 'jumbo', 'data-coap'):
         body = rnd.randbytes(12)
         if kind == 'jumbo':         # the largest chunk lengths the 16-bit field can announce, all bytes present
-            data = rnd.randbytes(rnd.choice([65533, 65534, 65535, 65532]) - 16)
+            data = rnd.randbytes((jumbo_len or rnd.choice([65533, 65534, 65535, 65532])) - 16)
         elif kind == 'data-coap':   # user data that is itself a CoAP message, announced with a protocol identifier naming CoAP's port
             body = body[:8] + struct.pack('!I', rnd.choice([5683, 5683, 132, 17]))
             data = coap(rnd, payload=rnd.randbytes(rnd.randint(1, 9)))[0]
